@@ -247,6 +247,7 @@ func init() {
 		},
 		"(*sync.WaitGroup).Add": func(it *Interp, a []Value) Value {
 			k := ptrKey(a[0].(Ptr))
+			it.visible("wg", "wg"+k)
 			it.sch.wg[k] += int(a[1].(int64))
 			if it.sch.wg[k] < 0 {
 				panic(&goPanic{msg: "sync: negative WaitGroup counter"})
@@ -255,6 +256,7 @@ func init() {
 		},
 		"(*sync.WaitGroup).Done": func(it *Interp, a []Value) Value {
 			k := ptrKey(a[0].(Ptr))
+			it.visible("wg", "wg"+k)
 			it.sch.wg[k]--
 			if it.sch.wg[k] < 0 {
 				panic(&goPanic{msg: "sync: negative WaitGroup counter"})
@@ -263,17 +265,23 @@ func init() {
 		},
 		"(*sync.WaitGroup).Wait": func(it *Interp, a []Value) Value {
 			k := ptrKey(a[0].(Ptr))
+			it.visibleWhen("wg", "wg"+k, func() bool { return it.sch.wg[k] == 0 }) // enabled once every Done has happened
 			it.block("waitgroup", func() bool { return it.sch.wg[k] == 0 }, nil)
 			return nil
 		},
 		"(*sync.Once).Do": func(it *Interp, a []Value) Value {
 			k := ptrKey(a[0].(Ptr))
-			if it.sch.once[k] {
+			// enabled unless another goroutine is inside f: Do returns only when that call has returned
+			it.visibleWhen("once", "once"+k, func() bool { return it.sch.onceSt[k] != 1 })
+			it.block("once", func() bool { return it.sch.onceSt[k] != 1 }, nil)
+			if it.sch.onceSt[k] == 2 {
 				return nil
 			}
-			it.sch.once[k] = true
+			it.sch.onceSt[k] = 1
 			fv := a[1].(*FuncV)
 			it.invoke(nil, fv, nil, fv.env)
+			it.visible("once", "once"+k) // completion: later callers are ordered after it
+			it.sch.onceSt[k] = 2
 			return nil
 		},
 		"(*os.File).Sync": func(it *Interp, a []Value) Value { return IfaceV{} },
